@@ -1,6 +1,6 @@
 Require Extraction.
 Require Import ExtrOcamlBasic.
-From Herc Require Import Base.Conv TreeDiff.Model.
+From Herc Require Import Base.Conv TreeDiff.Model TreeDiff.StrictProofs.
 Extraction "c20_model.ml" conv_anchor td_zero bc_zero br_zero td_consume td_initialize td_fork bc_consume bc_initialize bc_fork
   run_op changes_ok all_pass flip_free empty_name_inert tree_wfb passes restrict is_file first_listing filter_diffs expected
-  entry_eqb change_eqb path_eqb lookup.
+  entry_eqb change_eqb path_eqb lookup integral_b.
